@@ -52,6 +52,8 @@ const (
 	OpILt
 	OpILe
 	OpINeg
+	OpUBV2Int
+	OpSBV2Int
 )
 
 var opNames = map[Op]string{
@@ -61,6 +63,7 @@ var opNames = map[Op]string{
 	OpBVSDiv: "bvsdiv", OpBVSRem: "bvsrem", OpBVShl: "bvshl", OpBVLshr: "bvlshr", OpBVAshr: "bvashr",
 	OpUlt: "bvult", OpUle: "bvule", OpSlt: "bvslt", OpSle: "bvsle", OpConcat: "concat",
 	OpIAdd: "+", OpISub: "-", OpIMul: "*", OpIDiv: "div", OpIMod: "mod", OpILt: "<", OpILe: "<=", OpINeg: "-",
+	OpUBV2Int: "ubv_to_int", OpSBV2Int: "sbv_to_int",
 }
 
 // Width conventions: 0 = Bool, 1..64 = bit-vector, IntW = mathematical Int.
@@ -970,12 +973,96 @@ func (f *Factory) IBin(op Op, a, b *Term) *Term {
 			}
 		}
 	}
+	switch op {
+	case OpIAdd:
+		if a.Op == OpConst && a.Val == 0 {
+			return b
+		}
+		if b.Op == OpConst && b.Val == 0 {
+			return a
+		}
+		if a.Op == OpConst {
+			a, b = b, a
+		}
+		// (x + k1) + k2
+		if b.Op == OpConst && a.Op == OpIAdd && a.Args[1].Op == OpConst {
+			if k := f.IBin(OpIAdd, a.Args[1], b); k.Op == OpConst {
+				return f.IBin(OpIAdd, a.Args[0], k)
+			}
+		}
+	case OpISub:
+		if b.Op == OpConst && b.Val == 0 {
+			return a
+		}
+		if a == b {
+			return f.IntConst(0)
+		}
+		if b.Op == OpConst && int64(b.Val) != -1<<63 {
+			return f.IBin(OpIAdd, a, f.IntConst(-int64(b.Val)))
+		}
+	case OpIMul:
+		if a.Op == OpConst {
+			a, b = b, a
+		}
+		if b.Op == OpConst {
+			if b.Val == 0 {
+				return b
+			}
+			if b.Val == 1 {
+				return a
+			}
+		}
+	case OpIDiv:
+		if b.Op == OpConst && b.Val == 1 {
+			return a
+		}
+	case OpILt:
+		if a == b {
+			return f.False
+		}
+	case OpILe:
+		if a == b {
+			return f.True
+		}
+	}
 	w := IntW
 	if op == OpILt || op == OpILe {
 		w = 0
 	}
 	return f.mk(op, w, 0, "", a, b)
 }
+
+func (f *Factory) INeg(a *Term) *Term {
+	if a.Op == OpConst && int64(a.Val) != -1<<63 {
+		return f.IntConst(-int64(a.Val))
+	}
+	return f.mk(OpINeg, IntW, 0, "", a)
+}
+
+// BV2Int converts a bit-vector to its (signed or unsigned) integer value.
+func (f *Factory) BV2Int(a *Term, signed bool) *Term {
+	if a.W <= 0 {
+		panic("BV2Int: not a bit-vector")
+	}
+	if a.Op == OpConst {
+		if signed {
+			return f.IntConst(sext64(a.Val, a.W))
+		}
+		if a.Val < 1<<63 {
+			return f.IntConst(int64(a.Val))
+		}
+	}
+	if a.Op == OpZext {
+		return f.BV2Int(a.Args[0], false)
+	}
+	if signed {
+		return f.mk(OpSBV2Int, IntW, 0, "", a)
+	}
+	return f.mk(OpUBV2Int, IntW, 0, "", a)
+}
+
+// IntVar declares a mathematical-integer variable.
+func (f *Factory) IntVar(name string) *Term { return f.Var(name, IntW) }
 
 func abs64(x int64) int64 {
 	if x < 0 {
